@@ -6,9 +6,9 @@
     §3  lazily filled attributes                       `_single_interval_store`, `_is_overlapping`, `_sequence`
         and the `None`-as-sentinel variant             `Parent._strand_property` (parent/parent.py:167-176)
     §4  a function with two code paths selected by a flag that another accessor sets
-                                                       `CDSInterval.extract_sequence` (gene/cds.py:100,456-459,514)
-    §5  `dict.copy()` (shallow) followed by `set.update` on a reference heap
-                                                       `_merge_qualifiers` (gene/interval.py:776-786)
+                                                       `CDSInterval.extract_sequence` (gene/cds.py:100,456-467,515)
+    §5  copy of a dict of sets followed by `set.update`, on a reference heap (deep copy = the code as it is;
+        `dict.copy()` = the code before b1a89c3)      `_merge_qualifiers` (gene/interval.py:776-786)
 
   Lean core only (the model driver runs with `lean --run`).
 -/
@@ -160,12 +160,16 @@ def ParentS.reads : ParentS → Nat → ParentS × List (Option Strand)
 /-! ## §4 `CDSInterval.extract_sequence`: two code paths selected by a flag another accessor sets -/
 
 /-- the parts of a CDSInterval that matter: the two ways of computing the in-frame coding sequence
-    (`pathA` = slice the spliced sequence, cds.py:460-466; `pathB` = join the cached codon locations'
-    sequences, cds.py:456-459), and whether path B wraps its result in a `Sequence` (`false` on the pinned code). -/
+    (`pathA` = slice the spliced sequence, cds.py:461-467; `pathB` = join the cached codon locations'
+    sequences, cds.py:456-460), and which revision of the cached-codon path is modelled:
+      `repaired = true`   the code as it is (a04ad26 + 588ca9c): the path is taken only when the flag is set AND there
+                          is at least one cached codon location, and it returns `Sequence("".join(codons), …)`;
+      `repaired = false`  the code before the repair (defect F-C10a): taken whenever the flag is set, returns the
+                          joined `str`.  Kept for the regression witnesses only. -/
 structure CdsCfg (γ : Type) where
   pathA : γ → List Char
   pathB : γ → List Char
-  wrapB : Bool
+  repaired : Bool
 
 structure CdsState (γ : Type) where
   core : γ
@@ -183,13 +187,24 @@ def listCodons {γ} (cfg : CdsCfg γ) (s : CdsState γ) : CdsState γ × Nat :=
     let n := (cfg.pathB s.core).length / 3
     ({ s with flag := true, codonsMemo := some n }, n)
 
-/-- `extract_sequence()` (cds.py:440-466) -/
+/-- `len(self.chunk_relative_codon_locations)` as `extract_sequence` sees it (the memoised tuple when it exists) -/
+def codonCount {γ} (cfg : CdsCfg γ) (s : CdsState γ) : Nat :=
+  match s.codonsMemo with
+  | some n => n
+  | none => (cfg.pathB s.core).length / 3
+
+/-- `if self._chunk_relative_codon_locations_cached is True and self.chunk_relative_codon_locations:` (cds.py:456);
+    before the repair the second conjunct was missing -/
+def useCachedPath {γ} (cfg : CdsCfg γ) (s : CdsState γ) : Bool :=
+  s.flag && (!cfg.repaired || decide (0 < codonCount cfg s))
+
+/-- `extract_sequence()` (cds.py:440-467) -/
 def extract {γ} (cfg : CdsCfg γ) (s : CdsState γ) : CdsState γ × Ans :=
   match s.seqMemo with
   | some v => (s, v)
   | none =>
     let v : Ans :=
-      if s.flag then (if cfg.wrapB then .seqObj (cfg.pathB s.core) else .str (cfg.pathB s.core))
+      if useCachedPath cfg s then (if cfg.repaired then .seqObj (cfg.pathB s.core) else .str (cfg.pathB s.core))
       else .seqObj (cfg.pathA s.core)
     ({ s with seqMemo := some v }, v)
 
@@ -257,11 +272,11 @@ def mergeInto : Heap → Dict → List (Nat × List Nat) → Heap × Dict
     | some r => mergeInto (h.modify r (fun c => setUpdate c vals)) merged rest
     | none => mergeInto (h ++ [setUpdate [] vals]) (merged ++ [(key, h.length)]) rest
 
-/-- as coded (gene/interval.py:780): `merged = self.qualifiers.copy()` -/
+/-- BEFORE the repair b1a89c3 (defect F-C10b): `merged = self.qualifiers.copy()`; kept for the regression witness -/
 def mergeShallow (h : Heap) (own : Dict) (other : List (Nat × List Nat)) : Heap × Dict :=
   mergeInto h (shallowCopy own) other
 
-/-- the repaired version: `merged = {k: set(v) for k, v in self.qualifiers.items()}` -/
+/-- the code as it is (gene/interval.py:780, b1a89c3): `merged = {key: set(vals) for key, vals in self.qualifiers.items()}` -/
 def mergeDeep (h : Heap) (own : Dict) (other : List (Nat × List Nat)) : Heap × Dict :=
   let c := deepCopy h own
   mergeInto c.1 c.2 other
